@@ -255,6 +255,9 @@ func parent(ck *Check, tier string, seed int64, secs int, nw int) int {
 			cmd.Env = append(os.Environ(), "GOMAXPROCS=1", "VERIF_CLAIM="+claim)
 			var stderr strings.Builder
 			cmd.Stderr = &stderr
+			if os.Getenv("VERIF_DEBUG") != "" {
+				cmd.Stderr = os.Stderr
+			}
 			out, err := cmd.Output()
 			if err != nil {
 				errs[w] = fmt.Sprintf("worker %d: %v: %s", w, err, tail(stderr.String(), 2000))
